@@ -131,8 +131,8 @@ func init() {
 	})
 	props = append(props, &PropCfg{
 		ID:    "C30",
-		Pkgs:  []string{"./internal/tlcodegen"},
-		Funcs: "",
+		Pkgs:  []string{"./internal/tlcodegen", "./internal/tlast"},
+		Funcs: `^(BeautifulError2|checkCombinatorsBackwardCompatibility(\$\d+)?|CheckBackwardCompatibility\$1)$`,
 		Scope: "totality of the type comparison of the compatibility linter (closure compareTypes of checkCombinatorsBackwardCompatibility): for every pair of type references of any depth it returns a verdict - no index, nil or slice panic - so an unsafe edit inside a field type cannot escape rejection by crashing the linter",
 		Unverified: []string{"that the verdict is 'reject' for every listed kind of unsafe edit (the classification itself: field/constructor removal, mask changes, bare-to-union) - whole-schema semantics, not expressible as a function contract within reach", "the rest of checkCombinatorsBackwardCompatibility and CheckBackwardCompatibility (maps, closures over schema-wide state)"},
 	})
